@@ -140,6 +140,21 @@ func cflowOp(c *Ctx, op string) {
 		conn := cl.CallBidiStream(ctx)
 		_ = conn.Send(&[]byte{})
 		_ = conn.CloseRequest()
+		if strings.HasPrefix(a["point"], "close") {
+			// CloseResponse drains what is left of the body, and that drain fails (F26, F27)
+			if _, err := conn.Receive(); err != nil {
+				return "first receive: " + codeName(err)
+			}
+			err := conn.CloseResponse()
+			if err == nil {
+				return "close=0"
+			}
+			var ce *connect.Error
+			if !errors.As(err, &ce) {
+				return "uncoded " + err.Error()
+			}
+			return fmt.Sprintf("close=%d", ce.Code())
+		}
 		var codes []connect.Code
 		okSeen := 0
 		for i := 0; i < 4 && len(codes) < 2; i++ {
@@ -168,18 +183,34 @@ func cflowOp(c *Ctx, op string) {
 	case "deadline", "url-deadline":
 		want = 4
 	}
-	if want != 0 && a["done"] == "" && ans != fmt.Sprintf("first=%d second=%d", want, want) {
+	if want != 0 && a["done"] == "" && strings.HasPrefix(a["point"], "close") {
+		if ans != fmt.Sprintf("close=%d", want) {
+			c.Fail("cancel-code-flow", op, ans, fmt.Sprintf("a context error met while CloseResponse drains the body must surface as code %d", want))
+		}
+	} else if want != 0 && a["done"] == "" && ans != fmt.Sprintf("first=%d second=%d", want, want) {
 		c.Fail("cancel-code-flow", op, ans, fmt.Sprintf("a context error met at %s must surface as code %d on this and on every later operation", a["point"], want))
 	}
-	if wantDone := map[string]int{"canceled": 1, "deadline": 4}[a["done"]]; wantDone != 0 && ans != fmt.Sprintf("first=%d second=%d", wantDone, wantDone) {
+	if wantDone := map[string]int{"canceled": 1, "deadline": 4}[a["done"]]; wantDone != 0 && strings.HasPrefix(a["point"], "close") {
+		if ans != fmt.Sprintf("close=%d", wantDone) {
+			c.Fail("cancel-code-flow", op, ans, fmt.Sprintf("the call's context had ended (%s) when draining the response failed: CloseResponse must report code %d", a["done"], wantDone))
+		}
+	} else if wantDone != 0 && ans != fmt.Sprintf("first=%d second=%d", wantDone, wantDone) {
 		c.Fail("cancel-code-flow", op, ans, fmt.Sprintf("the call's context had ended (%s) when the transport failed at %s: this and every later operation must report code %d, whatever the transport's error looks like", a["done"], a["point"], wantDone))
 	}
-	if strings.Contains(ans, "=0") || strings.HasPrefix(ans, "uncoded") || strings.HasPrefix(ans, "PANIC") {
+	if (strings.Contains(ans, "=0") && ans != "close=0") || strings.HasPrefix(ans, "uncoded") || strings.HasPrefix(ans, "PANIC") {
 		c.Fail("cancel-bad-error", op, ans, "operation failed with the zero code, an uncoded error or a panic")
 	}
 	c.Count("cflow:" + a["point"][:2])
 	c.Emit(op, ans, true)
 }
+
+// closeTrackingBody counts Close calls on a body whose reads eventually fail.
+type closeTrackingBody struct {
+	failingBody
+	closed int
+}
+
+func (b *closeTrackingBody) Close() error { b.closed++; return nil }
 
 // watchedBody blocks at the end of its data until released, then fails with err: the point at
 // which a real transport would be stuck while the call's context ends.
@@ -489,7 +520,7 @@ func streamCancel(c *Ctx) {
 			errs = append(errs, "rst:"+r, "url-rst:"+r)
 		}
 		for _, e := range errs {
-			points := []string{"do", "prefix:0", "prefix:1", "prefix:4", "payload:0", "payload:3", "discard:0", "discard:5"}
+			points := []string{"do", "prefix:0", "prefix:1", "prefix:4", "payload:0", "payload:3", "discard:0", "discard:5", "close:0", "close:3"}
 			for _, p := range points {
 				if p == "do" && (e == "eof" || e == "ueof") {
 					continue
@@ -500,7 +531,7 @@ func streamCancel(c *Ctx) {
 		// the context has ended by the time the transport fails, and the transport's error does
 		// not say so (F16)
 		for _, e := range []string{"cause", "url-cause", "opaque", "closedpipe", "ueof", "rst:CANCEL", "url-rst:NO_ERROR", "rst:REFUSED_STREAM"} {
-			for _, p := range []string{"do", "prefix:0", "prefix:3", "payload:0", "payload:2", "discard:0", "discard:7"} {
+			for _, p := range []string{"do", "prefix:0", "prefix:3", "payload:0", "payload:2", "discard:0", "discard:7", "close:0", "close:4"} {
 				if p == "do" && e == "ueof" {
 					continue
 				}
@@ -704,6 +735,83 @@ func streamCancel(c *Ctx) {
 						}
 						want := map[string]string{"cancel": "canceled", "deadline": "deadline_exceeded"}[ending]
 						return codeName(err), codeName(err) == want
+					}})
+				}
+			}
+			// K21 (F25): a unary Connect call is answered with a non-200 status; the client reads
+			// the error document straight from the response body, and the context ends during
+			// that read. The call must report the context's code, not the fallback made from the
+			// HTTP status of a body it could not finish reading.
+			if proto == "connect" && h2 {
+				for _, ending := range []string{"cancel", "deadline"} {
+					ending := ending
+					scs = append(scs, scenario{"cancel-blocked-receive", "context ends (" + ending + ") while the error document of a non-200 unary Connect response is being read", func() (string, bool) {
+						ctx, cancel := context.WithCancel(context.Background())
+						before := cancel
+						if ending == "deadline" {
+							ctx, cancel = context.WithTimeout(context.Background(), 40*time.Millisecond)
+							before = func() { <-ctx.Done() }
+						}
+						defer cancel()
+						hc := &bodyClient{status: 500, header: http.Header{"Content-Type": {"application/json"}},
+							body: &failingBody{data: []byte(`{"code":"resource_exh`), err: errors.New("read tcp: connection reset by peer"), before: before}}
+						cl := connect.NewClient[[]byte, []byte](hc, "http://h/s/m", connect.WithCodec(rawCodec{"raw"}))
+						_, err := cl.CallUnary(ctx, connect.NewRequest(&[]byte{1}))
+						want := map[string]string{"cancel": "canceled", "deadline": "deadline_exceeded"}[ending]
+						return codeName(err), codeName(err) == want
+					}})
+				}
+			}
+			// K22 (F26): CloseResponse is draining a response the handler has not finished - the
+			// request side is still open - when the context ends: it must return, with the
+			// context's code, and the handler's context must end too.
+			if h2 {
+				for _, ending := range []string{"cancel", "deadline"} {
+					ending := ending
+					scs = append(scs, scenario{"cancel-blocked-close", "context ends (" + ending + ") while CloseResponse drains an unfinished bidi response, request side open, " + tag, func() (string, bool) {
+						handlerDone := make(chan bool, 1)
+						h := connect.NewBidiStreamHandler("/s/m", func(ctx context.Context, s *connect.BidiStream[[]byte, []byte]) error {
+							_, _ = s.Receive()
+							_ = s.Send(&[]byte{1})
+							select {
+							case <-ctx.Done():
+								handlerDone <- true
+							case <-time.After(4 * time.Second):
+								handlerDone <- false
+							}
+							return ctx.Err()
+						}, connect.WithCodec(rawCodec{"raw"}))
+						srv := startServer(h, true)
+						defer srv.Close()
+						cl := connect.NewClient[[]byte, []byte](srv.Client(), srv.URL+"/s/m", protoOpts(proto)...)
+						ctx, cancel := context.WithCancel(context.Background())
+						if ending == "deadline" {
+							ctx, cancel = context.WithTimeout(context.Background(), 400*time.Millisecond)
+						}
+						defer cancel()
+						st := cl.CallBidiStream(ctx)
+						if err := st.Send(&[]byte{1}); err != nil {
+							return "send: " + err.Error(), false
+						}
+						if _, err := st.Receive(); err != nil {
+							return "receive: " + err.Error(), false
+						}
+						closed := make(chan error, 1)
+						go func() { closed <- st.CloseResponse() }()
+						if ending == "cancel" {
+							time.Sleep(150 * time.Millisecond)
+							cancel()
+						}
+						want := map[string]string{"cancel": "canceled", "deadline": "deadline_exceeded"}[ending]
+						select {
+						case err := <-closed:
+							saw := <-handlerDone
+							// (a drain that ends because the handler finished cleanly is fine too)
+							return fmt.Sprintf("CloseResponse=%s handler saw its context end=%v", codeName(err), saw), (codeName(err) == want || err == nil) && saw
+						case <-time.After(2500 * time.Millisecond):
+							_ = st.CloseRequest()
+							return "CloseResponse still blocked 2.5 s after the context ended", false
+						}
 					}})
 				}
 			}
@@ -1539,6 +1647,52 @@ func streamLife(c *Ctx) {
 			_ = s.CloseResponse()
 			got := fmt.Sprintf("send=%s receive=%s", codeName(sendErr), codeName(rerr))
 			return got, sendErr != nil && errors.Is(sendErr, io.EOF) && codeName(rerr) == "resource_exhausted"
+		}})
+		// L5 (F31): a bidi call against an HTTP/1.1 server. The handler refuses it (505) without
+		// reading the request; the program Send, Receive, CloseRequest, CloseResponse must get
+		// past Receive on its own - the answer must not wait for a request body the client will
+		// only finish after it has seen the answer.
+		scs = append(scs, scenario{"life-h1-bidi", "Send, Receive, CloseRequest, CloseResponse on a bidi call against an HTTP/1.1 server, " + proto, func() (string, bool) {
+			h := connect.NewBidiStreamHandler("/s/m", func(ctx context.Context, s *connect.BidiStream[[]byte, []byte]) error {
+				return nil
+			}, connect.WithCodec(rawCodec{"raw"}))
+			srv := startServer(h, false)
+			defer srv.Close()
+			cl := connect.NewClient[[]byte, []byte](srv.Client(), srv.URL+"/s/m", protoOpts(proto)...)
+			s := cl.CallBidiStream(context.Background())
+			_ = s.Send(&[]byte{1})
+			done := make(chan error, 1)
+			go func() { _, err := s.Receive(); done <- err }()
+			var rerr error
+			blocked := false
+			select {
+			case rerr = <-done:
+			case <-time.After(1500 * time.Millisecond):
+				blocked = true
+				_ = s.CloseRequest()
+				rerr = <-done
+			}
+			_ = s.CloseRequest()
+			_ = s.CloseResponse()
+			if blocked {
+				return "Receive still blocked after 1.5s; returned after CloseRequest: " + codeName(rerr), false
+			}
+			return "receive=" + codeName(rerr), rerr != nil
+		}})
+		// L6 (F32): draining the response fails inside CloseResponse (the transport reports an
+		// error): the response body must be closed all the same.
+		scs = append(scs, scenario{"life-body-not-closed", "CloseResponse whose drain of the response body fails, " + proto, func() (string, bool) {
+			fb := &closeTrackingBody{failingBody: failingBody{data: append(frame(0, []byte{1}), 0, 0), err: errors.New("read tcp: connection reset by peer")}}
+			hc := &bodyClient{status: 200, header: http.Header{"Content-Type": {ctFor(proto, "bidi", "raw")}}, body: fb}
+			cl := connect.NewClient[[]byte, []byte](hc, "http://h/s/m", protoOpts(proto)...)
+			s := cl.CallBidiStream(context.Background())
+			_ = s.Send(&[]byte{1})
+			_ = s.CloseRequest()
+			if _, err := s.Receive(); err != nil {
+				return "first receive: " + codeName(err), false
+			}
+			cerr := s.CloseResponse()
+			return fmt.Sprintf("CloseResponse=%s body closed %d time(s)", codeName(cerr), fb.closed), fb.closed >= 1
 		}})
 		// L1b: small Sends after the handler finished eventually fail with an EOF-wrapping error
 		scs = append(scs, scenario{"life-send-after-finish", "small Sends after the handler finished, " + proto, func() (string, bool) {
